@@ -269,6 +269,69 @@ def r9_one_admission_table(ctx):
                   else where(f))
 
 
+def r12_buffer_owner(ctx):
+    """the partially received binary packet belongs to the TRANSPORT (all of
+    a client's namespaces arrive on it): it is written by the message handler
+    that reassembles it and released when the transport ends.  Any other
+    writer - a namespace-level disconnect, an emit, a connect - throws away
+    or replaces a packet another namespace of the same client is in the
+    middle of sending: its attachment is then parsed as a packet of its own,
+    the event is never dispatched and never acknowledged."""
+    m = ctx.model
+    owners = ('__init__', '_handle_eio_message', '_handle_eio_disconnect')
+    classes = [m.cls(c) for c in ('BaseServer', 'Server', 'AsyncServer')]
+    funcs = [f for c in classes for f in c.methods.values()]
+    callers = {}
+    for g in funcs:
+        for t in m.callees(g):
+            callers.setdefault(t, set()).add(g)
+
+    def writes(f):
+        out = []
+        for n in m._walk_own(f.node):
+            if isinstance(n, ast.Subscript) and \
+                    isinstance(n.ctx, (ast.Store, ast.Del)) and \
+                    U(n.value) == 'self._binary_packet':
+                out.append(n)
+            elif isinstance(n, ast.Call) and \
+                    isinstance(n.func, ast.Attribute) and \
+                    U(n.func.value) == 'self._binary_packet' and \
+                    n.func.attr in ('pop', 'clear', 'setdefault', 'update',
+                                    'popitem'):
+                out.append(n)
+            elif isinstance(n, ast.Attribute) and \
+                    isinstance(n.ctx, (ast.Store, ast.Del)) and \
+                    U(n) == 'self._binary_packet':
+                out.append(n)
+        return out
+
+    def owned(f, depth=0):
+        if f.name in owners:
+            return True
+        cs = callers.get(f, set())
+        return bool(cs) and depth < 3 and f.name.startswith('_') and \
+            all(owned(g, depth + 1) for g in cs)
+    n = 0
+    for f in funcs:
+        for w in writes(f):
+            n += 1
+            ctx.check(owned(f), '%s.%s' % (f.cls.name, f.name),
+                      'the pending binary packet of a transport is written '
+                      'by the message handler / released at transport end',
+                      key='foreign writer of _binary_packet',
+                      reason='%s.%s writes self._binary_packet (%s): the '
+                      'buffer belongs to the transport, on which every '
+                      'namespace of the client arrives; a binary event '
+                      'another namespace is in the middle of sending loses '
+                      'its header - it is never dispatched nor acknowledged '
+                      'and its attachment is parsed as a packet'
+                      % (f.cls.name, f.name, U(w)[:50]), where=where(f, w),
+                      rid='C05.R12')
+    if n < 2:
+        raise AnalysisError('C05.R12: only %d writers of _binary_packet '
+                            'found' % n)
+
+
 def run(ctx):
     ctx.rule('C05.R11', 'engine.io events are wired to the three handlers; '
              '_send_packet hands every frame to the transport', floor=6)
@@ -307,6 +370,9 @@ def run(ctx):
              'removed first', floor=16)
     for fam in SA:
         msgpath.reassembly(ctx, SERVER[fam], True)
+    ctx.rule('C05.R12', 'who may write the per-transport reassembly buffer',
+             floor=2)
+    r12_buffer_owner(ctx)
     ctx.rule('C01.R5', 'the pending packet of one transport shares no '
              'reassembly state with other packets (fresh attachment list and '
              'count per packet) (shared rule)', floor=2)
